@@ -158,6 +158,12 @@ Theorem C06_subscribe_registers :
 Proof. exact subscribe_registers. Qed.
 Print Assumptions C06_subscribe_registers.
 
+(** addSubscription is defined for every prefix (no length bound since 434b003). *)
+Theorem C06_add_subscription_total :
+  forall b c pre ents, exists b' qs, add_subscription b c pre ents = Some (b', qs).
+Proof. exact (add_subscription_total fixed_C06_2). Qed.
+Print Assumptions C06_add_subscription_total.
+
 (** ** the executable specification used on the implementation's observations *)
 
 Theorem C06_spec_sound :
